@@ -38,28 +38,89 @@ def run(ctx, ck):
     ck.rule('R-ASSERT.not-segmented', 'transformations assert that the object is not yet segmented')
 
     # ---------------------------------------------------------------- equal segmentation
+    # the segmenting loop as a state transformer (one iteration walked symbolically; helpers that
+    # create / append the segment and generators handing out the end points are looked through)
+    from ..symx import SymExec, loop_transformer, Path, simplify, copy_replace
+    from ..poly import poly_roles, cancel, Poly
     f = m.func('mininec.Wire.compute_equal_segments')
-    fl = ctx.flow(f)
-    ls = [l for l in loops_in(f.node) if isinstance(l, ast.For)]
+    ls = [l for l in f.body() if isinstance(l, ast.For)]
     ck.floor('loops in compute_equal_segments', len(ls), 1)
     l = ls[0]
-    mn, mx = loop_reaches_on_all_paths(fl, l, lambda n: is_append_to(n, 'self.segments'))
-    ck.ob('R-PAIR.one-per-iteration', f.qual, norm(l.iter) == 'range(self.n_segments)' and (mn, mx) == (1, 1),
-          f.loc(l), 'for %s in %s: appends min %s max %s' % (norm(l.target), norm(l.iter), mn, mx))
-    # chain: Segment(s0, s1,...) then s0 = s1
-    app = [c for c in walk_no_nested(l) if isinstance(c, ast.Call) and isinstance(c.func, ast.Name)
-           and c.func.id == 'Segment']
-    ok = len(app) == 1
+    pre, carried, bpaths, post = loop_transformer(ctx, f, l, bind_loops=True, objects=True, effects=True)
+    bpaths = [p_ for p_ in bpaths if p_.end != 'raise']
+    # number of iterations = self.n_segments
+    it_closed = SymExec(ctx, f, bind_loops=True).subst(l.iter, pre)
+
+    def n_iter(it_):
+        if isinstance(it_, ast.Call) and isinstance(it_.func, ast.Name) and it_.func.id == '_each' and len(it_.args) == 2:
+            return n_iter(it_.args[1])
+        if isinstance(it_, ast.Call) and isinstance(it_.func, ast.Name) and it_.func.id == 'enumerate' and len(it_.args) == 1:
+            return n_iter(it_.args[0])
+        if isinstance(it_, ast.Call) and isinstance(it_.func, ast.Name) and it_.func.id == 'range' and not it_.keywords:
+            if len(it_.args) == 1:
+                return cancel(poly_roles(it_.args[0], {}))
+            if len(it_.args) == 2:
+                return cancel(poly_roles(it_.args[1], {}) - poly_roles(it_.args[0], {}))
+        raise ValueError('iterations of %s' % norm(it_)[:60])
+    try:
+        niter = n_iter(it_closed)
+        ok_n = cancel(niter - poly_roles(ast.parse('self.n_segments', mode='eval').body, {})).t == {}
+        n_txt = repr(niter)
+    except ValueError as e_:
+        ok_n, n_txt = False, str(e_)
+    created = []
+    for p_ in bpaths:
+        cr = [ev for ev in p_.events if ev[0] == 'create' and norm(ev[2].func) == 'Segment']
+        ap = [ev for ev in p_.events if ev[0] == 'call' and isinstance(ev[1].func, ast.Attribute) and
+              ev[1].func.attr == 'append' and norm(ev[1].func.value) == 'self.segments']
+        created.append((len(cr), len(ap), cr, ap, p_))
+    counts = sorted({(c_[0], c_[1]) for c_ in created})
+    one = counts == [(1, 1)] and all(norm(c_[3][0][1].args[0]) == c_[2][0][1] for c_ in created)
+    ck.ob('R-PAIR.one-per-iteration', f.qual, ok_n and one, f.loc(l),
+          'for %s in %s: %s iterations; (segments created, appended) per iteration %s' % (
+              norm(l.target), norm(l.iter)[:40], n_txt, counts))
+    # chain: the segment runs from the running point to the new end point, which becomes the running
+    # point; the first one starts at (a copy of) p1; the k-th end point is p1 + (k + 1) * diff / n
+    ok, why = bool(created) and one, 'segment k starts where segment k-1 ended; first starts at p1'
     if ok:
-        a0, a1 = norm(app[0].args[0]), norm(app[0].args[1])
-        ok = any(isinstance(s, ast.Assign) and norm(s.targets[0]) == a0 and norm(s.value) == a1
-                 for s in l.body)
-        # first segment starts at p1
-        d = fl.def_exprs(a0, fl.cfg.node_of(l))
-        body_ids = fl.cfg.loops[fl.cfg.node_of(l)][0]
-        starts = [norm(fl.inline(x[1], x[2])) for x in d if x[0] == 'assign' and x[2] not in body_ids]
-        ok = ok and starts == ['np.copy(self.p1)']
-    ck.ob('R-PAIR.chain', f.qual, ok, f.loc(l), 'segment k starts where segment k-1 ended; first starts at p1')
+        sx_ = SymExec(ctx, f, bind_loops=True)
+        probe = Path({}, ())
+        sx_._bind_loop(l.target, it_closed, probe)
+        tnames = [n_.id for n_ in ast.walk(l.target) if isinstance(n_, ast.Name)]
+        elem = {k_: simplify(v_) for k_, v_ in probe.env.items() if k_ in tnames}
+        ks_ = sorted({n_.id for v_ in elem.values() for n_ in ast.walk(v_) if isinstance(n_, ast.Name) and n_.id.startswith('_k')})
+        for nc, na, cr, ap, p_ in created:
+            call = cr[0][2]
+            a0, a1 = call.args[0], call.args[1]
+            run = [c_ for c_ in carried if norm(a0) == c_]
+            if len(run) != 1:
+                ok, why = False, 'the segment does not start at the running point: Segment(%s, ...)' % norm(a0)[:40]
+                break
+            P = run[0]
+            nxt = p_.env.get(P)
+            if nxt is None or norm(nxt) != norm(a1):
+                ok, why = False, 'segment ends at %s but the next one starts at %s' % (norm(a1)[:50], norm(nxt)[:50] if nxt is not None else P)
+                break
+            if P not in pre or norm(pre[P]) != 'np.copy(self.p1)':
+                ok, why = False, 'the first segment starts at %s, not at a copy of p1' % (norm(pre[P])[:50] if P in pre else '?')
+                break
+            # end point of iteration k (0-based)
+            try:
+                e1 = simplify(copy_replace(a1, lambda n_: elem.get(n_.id) if isinstance(n_, ast.Name) else None))
+                if len(ks_) != 1:
+                    raise ValueError('loop element not understood: %s' % sorted(elem))
+                K = ks_[0]
+                want = cancel(poly_roles(ast.parse(
+                    'np.copy(self.p1) + (%s + 1) * (self.diff / self.wire_len) * (self.wire_len / self.n_segments)' % K,
+                    mode='eval').body, {}))
+                got = cancel(poly_roles(e1, {}))
+                if cancel(got - want).t != {}:
+                    ok, why = False, 'end point of segment k is %s, expected p1 + (k + 1) * diff / n_segments' % norm(e1)[:90]
+                    break
+            except (ValueError, ZeroDivisionError) as e_:
+                ok, why = False, 'end point not understood: %s' % e_
+                break
+    ck.ob('R-PAIR.chain', f.qual, ok, f.loc(l), why)
 
     cs = m.func('mininec.Wire.compute_segments')
     cfl = ctx.flow(cs)
@@ -271,12 +332,27 @@ def run(ctx, ck):
             bad = bad or str(e_)
     ck.ob('R-POLY.on-curve', 'mininec.Arc.__init__|uniform-angle', bad is None, g.loc(),
           'angle = a1 + (a2 - a1) / n_segments * i' if bad is None else bad)
+    # on every path the first thing done to self.segments is the plain reset, before any append
+    # (appends through a helper included)
     cc = m.func('mininec.Curve.compute_segments')
-    cfl2 = ctx.flow(cc)
     curve_pending = True
-    n_upd, bad, n_plain = first_touch_is_plain_assign(cfl2, 'self.segments')
-    ck.ob('R-FRESH.segments', cc.qual, n_upd >= 1 and not bad and n_plain >= 1, cc.loc(),
-          'self.segments reset before the appends')
+    bad = None
+    n_app = 0
+    for p_ in SymExec(ctx, cc, bind_loops=True, objects=True, effects=True, max_paths=2000).run():
+        if p_.end == 'raise':
+            continue
+        first = None
+        for ev in p_.events:
+            if ev[0] == 'store' and ev[1] == 'self.segments':
+                first = first or ('reset' if norm(ev[2]) in ('[]', 'list()') else 'store %s' % norm(ev[2])[:30])
+            elif ev[0] == 'call' and isinstance(ev[1].func, ast.Attribute) and norm(ev[1].func.value) == 'self.segments':
+                first = first or ev[1].func.attr
+                if ev[1].func.attr == 'append':
+                    n_app += 1
+        if first not in (None, 'reset'):
+            bad = bad or first
+    ck.ob('R-FRESH.segments', cc.qual, bad is None and n_app >= 1, cc.loc(),
+          'self.segments reset before the appends' if bad is None else 'self.segments is first touched by %s' % bad)
 
     # ---------------------------------------------------------------- tapers
     # the generating loop as a state transformer: one pair per iteration, every pair starts at the
